@@ -310,6 +310,20 @@ func (s *Spec) Check(e *Exec, t []string) {
 				s.fail(e, "C05", "[process death after %s] a new process opening the directory is told nothing (first load and Control succeed) but %s", t[0], ft[2])
 				s.fail(e, "C11", "Control on a fresh handle succeeds although %s", ft[2])
 			}
+			// synchronous mode (every completed call has committed), or right after FlushAllAndCommit /
+			// Close: the new process must find exactly the accepted collection, not a corruption
+			if !s.off && !s.faulted && !s.outside && !s.damaged && s.crashCtx == "" && !s.mute && s.variant <= 1 &&
+				(!e.cfg.Async || s.justCommitted != "") {
+				want := fmt.Sprintf("agree:%d", len(s.live))
+				if ft[2] != want && ft[2] != "nodir" && ft[2] != "childfailed" {
+					for _, pr := range []string{"C04", "C05", "C17"} {
+						if pr == "C17" && !(t[0] == "create" || s.prevOp == "create") {
+							continue
+						}
+						s.fail(e, pr, "[process death after a completed %s, nothing pending] a new process opening the directory finds %q instead of the %d accepted objects", s.prevOp, ft[2], len(s.live))
+					}
+				}
+			}
 		}
 		if ft[0] == "o" && len(ft) > 1 && ft[1] == "fault" && ft[2] == "fired=1" {
 			s.off = true
